@@ -207,6 +207,27 @@ pub use threading::{ThreadPool, thread_pool};
 pub use timing::TimingSort;
 pub use value::{DataType, Sequence, TryFromValueError, Value, ValueOrView, ValueType, ValueView};
 
+/// Verification hooks: re-exports of the public items of otherwise private
+/// modules, for out-of-tree property checks. Not part of the stable API.
+#[cfg(feature = "verif_hooks")]
+pub mod verif {
+    pub mod graph {
+        pub use crate::graph::*;
+    }
+    pub mod operator {
+        pub use crate::operator::*;
+    }
+    pub mod infer_shapes {
+        pub use crate::infer_shapes::*;
+    }
+    pub mod weight_cache {
+        pub use crate::weight_cache::*;
+    }
+    pub mod optimize {
+        pub use crate::optimize::*;
+    }
+}
+
 #[deprecated = "renamed to `LoadError`"]
 pub type ModelLoadError = LoadError;
 
